@@ -17,10 +17,11 @@ META = {
                    "q(u)=p(u) special case, each variational distribution's mean/covariance equal to what its parameters encode, "
                    "and the multitask wrappers' mixing.",
     "bounds": {"quick": "M<=2 inducing, n<=2 data points; distributions Cholesky / MeanField / Delta / Natural / TrilNatural; strategies "
-                        "Variational (whitened), Unwhitened, IndependentMultitask, LMC; batch () and (2,)",
+                        "Variational (whitened), Unwhitened, BatchDecoupled, OrthogonallyDecoupled (over a whitened base), "
+                        "GridInterpolation (grids 5, 4x4; x symbolic inside its cell), IndependentMultitask, LMC; batch () and (2,)",
                "thorough": "M<=3, n<=3"},
     "outside": ["CIQ strategy (msMINRES / contour quadrature: iterative, eigh)", "NN-variational strategy (kNN search)",
-                "GridInterpolation / BatchDecoupled / OrthogonallyDecoupled strategies (not yet covered)",
+                "GridInterpolation strategy: KL and the prior case (K(Z,Z) of a real kernel on >= 16 grid points does not factor symbolically)",
                 "first-call initialisation of the variational parameters from the prior", "rounding"],
     "assumptions": ["reals for floats", "Kzz and Kxx carry the library's documented jitter (variational_cholesky_jitter): the stub "
                     "kernel's table is G G^T minus that jitter on the diagonal"],
@@ -217,6 +218,209 @@ def strategy(S, strat, dist, M, n, batch, training, what="both"):
             S.prove_eq(kl_t[b] if bs else kl_t, ref_kl, tag + "KL(q(u)||p(u))")
 
 
+
+def grid_interp(S, G, d, dist, batch=0):
+    """GridInterpolationVariationalStrategy: f = W u with W the cubic interpolation weights of x on the inducing GRID, so
+       q(f) = N(W m, W S W^T). The weights come from the library's own Interpolation (decided in C09) in ITS index convention
+       (dimension 0 slowest); which inducing point a weight refers to is decided by COORDINATES (row of strategy.inducing_points
+       holding that grid point), so the check is independent of how the strategy enumerates its grid."""
+    from gpytorch.utils.interpolation import Interpolation
+    import itertools
+    M = G ** d
+    bs = (batch,) if batch else ()
+    dd, Mq, Cq = _make_dist(S, dist, M, bs)
+    bounds = [(0.0, 1.0), (-1.0, 2.0), (0.5, 1.5)][:d]
+
+    class GridVGP(ApproximateGP):
+        def __init__(self_):
+            vs = V.GridInterpolationVariationalStrategy(self_, G, bounds, dd)
+            super().__init__(vs)
+            self_.mean_module = gpytorch.means.ConstantMean()
+            self_.covar_module = gpytorch.kernels.RBFKernel(ard_num_dims=d)
+
+        def forward(self_, x):
+            return gpytorch.distributions.MultivariateNormal(self_.mean_module(x), self_.covar_module(x))
+
+    model = GridVGP()
+    for p in model.parameters():
+        p.requires_grad_(False)
+    vs = model.variational_strategy
+    vs.variational_params_initialized.fill_(1)
+    model.eval()
+    grid = vs.grid.clone()  # G x d, column i = grid of dimension i
+    n = 2
+    x = torch.zeros(n, d)
+    for r in range(n):
+        for i in range(d):
+            h = float(grid[1, i] - grid[0, i])
+            c = G // 2 - 1 + ((r + i) % 2)
+            x[r, i] = float(grid[c, i]) + h * (0.2 + 0.3 * r + 0.1 * i)
+    X = S.sym_tensor(x, "x")
+    with S.mode():
+        out = model(x)
+        mean_t, cov_t = out.mean, out.covariance_matrix
+        idx, val = Interpolation().interpolate([grid[:, i].contiguous() for i in range(d)], x)
+        W = as_sym_arr(SH.get(val))
+    # interpolation index (dimension 0 slowest) -> coordinates -> row of the strategy's inducing points
+    Z = vs.inducing_points.detach().double().numpy()
+    coords = [tuple(float(grid[j, i]) for i, j in enumerate(js)) for js in itertools.product(range(G), repeat=d)]
+    def row_of(k):
+        c = np.array(coords[k])
+        hits = [a for a in range(Z.shape[0]) if np.allclose(Z[a], c, atol=1e-9)]
+        if len(hits) != 1:
+            raise HarnessError("grid point %s not found exactly once among the strategy's inducing points" % (c,))
+        return hits[0]
+    rows = [[row_of(k) for k in idx[r].tolist()] for r in range(n)]
+    for b in (np.ndindex(*bs) if bs else [()]):
+        mq = Mq[b]
+        Sq = Cq[b]
+        Mref = np.empty(n, dtype=object)
+        Cref = np.empty((n, n), dtype=object)
+        for r in range(n):
+            Mref[r] = sum((W[r, a] * mq[rows[r][a]] for a in range(W.shape[1]) if not (W[r, a].is_const() and W[r, a].c == 0)), Sym.const(0.0))
+            for c in range(n):
+                tot = Sym.const(0.0)
+                for a in range(W.shape[1]):
+                    if W[r, a].is_const() and W[r, a].c == 0:
+                        continue
+                    for e in range(W.shape[1]):
+                        if W[c, e].is_const() and W[c, e].c == 0:
+                            continue
+                        sv = Sq[rows[r][a], rows[c][e]]
+                        if sv.is_const() and sv.c == 0:
+                            continue
+                        tot = tot + W[r, a] * W[c, e] * sv
+                Cref[r, c] = tot
+        tag = ("b%s." % list(b)) if bs else ""
+        S.prove_eq(mean_t[b] if bs else mean_t, Mref, tag + "grid-interpolation q(f) mean = W m (grid %d^%d)" % (G, d))
+        S.prove_eq(cov_t[b] if bs else cov_t, Cref, tag + "grid-interpolation q(f) covariance = W S W^T (grid %d^%d)" % (G, d))
+
+
+def batch_decoupled(S, M, n, dist, training):
+    """BatchDecoupledVariationalStrategy: the mean of q(f) uses the FIRST element of the decoupling batch dimension
+       (its inducing points / hyper-parameters), the covariance the SECOND (whitened parameterisation)"""
+    N = M + n
+    bs = (2,)
+    Gs, Gc = S.factor("g", N, bs)
+    d, Mq, Cq = _make_dist(S, dist, M, ())
+    Z = labels(0, M)  # the strategy itself adds the decoupling dimension to the inducing points
+    X = labels(M, N)
+    table = torch.zeros(2, N, N)
+
+    class BD(ApproximateGP):
+        def __init__(self_):
+            vs = V.BatchDecoupledVariationalStrategy(self_, Z, d, learn_inducing_locations=False)
+            super().__init__(vs)
+            self_.mean_module = make_mean("constant", bs)
+            self_.covar_module = TableKernel(table)
+
+        def forward(self_, x):
+            return gpytorch.distributions.MultivariateNormal(self_.mean_module(x), self_.covar_module(x))
+
+    model = BD()
+    declare_params(S, model.mean_module, "mean_")
+    for p in model.parameters():
+        p.requires_grad_(False)
+    vs = model.variational_strategy
+    vs.variational_params_initialized.fill_(1)
+    model.train(training)
+    jit = float(gpytorch.settings.variational_cholesky_jitter.value(torch.float64))
+    J = Gs @ np.swapaxes(Gs, -1, -2)
+    K = J.copy()
+    for b in range(2):
+        for i in range(N):
+            K[b, i, i] = K[b, i, i] - Sym.const(jit)
+    with torch.no_grad():
+        table.copy_(Gc @ Gc.transpose(-1, -2) - jit * torch.eye(N))
+    S.put(table, K)
+    with S.mode():
+        mall = as_sym_arr(SH.get(model.mean_module(labels(0, N, bs))))
+        out = model(X)
+        mean_t = out.mean
+        cov_t = out.covariance_matrix if not training else None
+        var_t = out.variance
+        kl_t = vs.kl_divergence() if Cq is not None else None
+    # mean: element 0
+    G0, G1 = Gs[0][:M, :M], Gs[1][:M, :M]
+    I0 = tri_solve_lower(G0, K[0][:M, M:])  # L0^-1 Kzx
+    I1 = tri_solve_lower(G1, K[1][:M, M:])
+    Mref = mall[0][M:] + (I0.T @ Mq.reshape(M, 1)).reshape(n)
+    mid = (Cq - eye(M)) if Cq is not None else (eye(M) * Sym.const(-1.0))
+    Cref = J[1][M:, M:] + I1.T @ mid @ I1
+    S.prove_eq(mean_t, Mref, "batch-decoupled q(f) mean (mean element of the decoupling dimension)")
+    if cov_t is not None:
+        S.prove_eq(cov_t, Cref, "batch-decoupled q(f) covariance (covariance element of the decoupling dimension)")
+    S.prove_eq(var_t, np.diagonal(Cref), "batch-decoupled q(f) variance")
+    if kl_t is not None:
+        tr = np.sum(np.diagonal(Cq))
+        quad = np.sum(Mq * Mq)
+        # the decoupled regulariser is DEFINED by the library as KL(Delta(m) || p) + KL(N(0, S) || p) with its documented
+        # convention KL(Delta(m) || p) = -log p(m) (decided in C10): that carries the normalising constant (M/2) log 2 pi
+        ref_kl = (-_logdet(S, dist, (), M, ()) + tr + quad - Sym.const(float(M))) * Sym.const(0.5) + Sym.const(0.5 * M) * Sym.const(math.log(2 * math.pi))
+        S.prove_eq(kl_t, ref_kl, "batch-decoupled KL = -log N(m; 0, I) + KL(N(0, S) || N(0, I))")
+
+
+def orth_decoupled(S, Mc, Mm, n, dist):
+    """OrthogonallyDecoupledVariationalStrategy over a whitened base strategy: covariance = the base strategy's q(f)
+       covariance; mean = base mean + Cov_base(x, Z_mean) a; KL = KL_base + a^T Cov_base(Z_mean, Z_mean) a / 2"""
+    N = Mc + Mm + n
+    Gs, Gc = S.factor("g", N)
+    d, Mq, Cq = _make_dist(S, dist, Mc, ())
+    dm = V.DeltaVariationalDistribution(Mm)
+    with torch.no_grad():
+        dm.variational_mean.copy_(S.randn(Mm))
+    Am = S.sym_tensor(dm.variational_mean, "am")
+    Zc, Zm, X = labels(0, Mc), labels(Mc, Mc + Mm), labels(Mc + Mm, N)
+    table = torch.zeros(N, N)
+
+    class OD(ApproximateGP):
+        def __init__(self_):
+            base = V.VariationalStrategy(self_, Zc, d, learn_inducing_locations=False)
+            vs = V.OrthogonallyDecoupledVariationalStrategy(base, Zm, dm)
+            super().__init__(vs)
+            self_.mean_module = make_mean("constant")
+            self_.covar_module = TableKernel(table)
+
+        def forward(self_, x):
+            return gpytorch.distributions.MultivariateNormal(self_.mean_module(x), self_.covar_module(x))
+
+    model = OD()
+    declare_params(S, model.mean_module, "mean_")
+    for p in model.parameters():
+        p.requires_grad_(False)
+    vs = model.variational_strategy
+    vs.variational_params_initialized.fill_(1)
+    vs.base_variational_strategy.variational_params_initialized.fill_(1)
+    model.eval()
+    jit = float(gpytorch.settings.variational_cholesky_jitter.value(torch.float64))
+    J = Gs @ Gs.T
+    K = J - eye(N) * Sym.const(jit)
+    with torch.no_grad():
+        table.copy_(Gc @ Gc.T - jit * torch.eye(N))
+    S.put(table, K)
+    with S.mode():
+        mall = as_sym_arr(SH.get(model.mean_module(labels(0, N))))
+        out = model(X)
+        mean_t, cov_t = out.mean, out.covariance_matrix
+        kl_t = vs.kl_divergence()
+    # base (whitened) q(f) at all non-inducing labels [Z_mean; X]
+    Gz = Gs[:Mc, :Mc]
+    I = tri_solve_lower(Gz, K[:Mc, Mc:])  # L^-1 K_{z,rest}
+    mid = (Cq - eye(Mc)) if Cq is not None else (eye(Mc) * Sym.const(-1.0))
+    base_mean = mall[Mc:] + (I.T @ Mq.reshape(Mc, 1)).reshape(N - Mc)
+    base_cov = J[Mc:, Mc:] + I.T @ mid @ I
+    Mref = base_mean[Mm:] + (base_cov[Mm:, :Mm] @ Am.reshape(Mm, 1)).reshape(n)
+    S.prove_eq(mean_t, Mref, "orthogonally decoupled q(f) mean = base mean + Cov_base(x, Z_m) a")
+    S.prove_eq(cov_t, base_cov[Mm:, Mm:], "orthogonally decoupled q(f) covariance = base q(f) covariance")
+    if Cq is not None:
+        tr = np.sum(np.diagonal(Cq))
+        quad = np.sum(Mq * Mq)
+        kl_base = (-_logdet(S, dist, (), Mc, ()) + tr + quad - Sym.const(float(Mc))) * Sym.const(0.5)
+        # the strategy's prior over the mean inducing values adds its own jitter on top of the base covariance
+        Kmm = base_cov[:Mm, :Mm] + eye(Mm) * Sym.const(float(vs.jitter_val))
+        extra = (Am.reshape(1, Mm) @ Kmm @ Am.reshape(Mm, 1))[0, 0] * Sym.const(0.5)
+        S.prove_eq(kl_t, kl_base + extra, "orthogonally decoupled KL = KL_base + a^T Cov_base(Z_m, Z_m) a / 2")
+
 def _logdet(S, dist, b, M, bs):
     """log det of the variational covariance from its declared parameters"""
     def at(prefix, i):
@@ -398,6 +602,11 @@ def scenarios(tier, seed):
         add("skipvar_history", M=2, n=2)
         add("multitask", kind="independent", M=2, n=2, T=2, Q=0)
         add("multitask", kind="lmc", M=2, n=2, T=2, Q=2)
+        add("grid_interp", G=5, d=1, dist="cholesky")
+        add("grid_interp", G=4, d=2, dist="meanfield")
+        add("batch_decoupled", M=2, n=2, dist="cholesky", training=False)
+        add("batch_decoupled", M=2, n=1, dist="meanfield", training=True)
+        add("orth_decoupled", Mc=2, Mm=1, n=2, dist="cholesky")
     else:
         for strat in ("variational", "unwhitened"):
             for dist in dists:
@@ -420,4 +629,18 @@ def scenarios(tier, seed):
         add("multitask", kind="independent", M=2, n=1, T=3, Q=0)
         add("multitask", kind="lmc", M=2, n=2, T=2, Q=2)
         add("multitask", kind="lmc", M=2, n=1, T=3, Q=2)
+        for dist in ("cholesky", "meanfield"):
+            add("grid_interp", G=5, d=1, dist=dist)
+            add("grid_interp", G=6, d=1, dist=dist, batch=2)
+        add("grid_interp", G=4, d=2, dist="meanfield")
+        add("grid_interp", G=5, d=2, dist="meanfield")
+        add("grid_interp", G=6, d=2, dist="meanfield")
+        for dist in ("cholesky", "meanfield", "natural"):
+            for training in (False, True):
+                add("batch_decoupled", M=2, n=2, dist=dist, training=training)
+            if dist != "natural":
+                add("batch_decoupled", M=3, n=1, dist=dist, training=False)
+        for dist in ("cholesky", "meanfield", "delta", "natural"):
+            add("orth_decoupled", Mc=2, Mm=1, n=2, dist=dist)
+            add("orth_decoupled", Mc=2, Mm=2, n=1, dist=dist)
     return out
